@@ -91,6 +91,26 @@ def random_edges(rng, ids, density=0.25, orders=ORDERS):
     return es
 
 
+BIG_EDGES = [999, 1000, 1001, 1023, 1024, 9999, 10000, 32767, 32768, 65535, 65536, 99999, 100000, 999999, 1000000]
+
+
+def big_map_numbers(rng, n):
+    """n distinct map numbers between 1 and 10^6: a mix of small ones, numbers around powers of ten / two and arbitrary ones
+    (map numbers are arbitrary positive integers for get_its; a reaction taken out of a database keeps its own numbering)"""
+    out = set()
+    while len(out) < n:
+        c = rng.random()
+        out.add(rng.randint(1, 40) if c < 0.25 else rng.choice(BIG_EDGES) + rng.randint(-2, 2) if c < 0.55 else rng.randint(1, 10 ** 6))
+    out = [max(1, x) for x in out]
+    out = list(dict.fromkeys(out))
+    while len(out) < n:
+        x = rng.randint(1, 10 ** 6)
+        if x not in out:
+            out.append(x)
+    rng.shuffle(out)
+    return out
+
+
 def gen_reaction(rng, big=False, full=False, ood=None):
     """-> (G, H, tags) as networkx graphs.
 
@@ -130,9 +150,12 @@ def gen_reaction(rng, big=False, full=False, ood=None):
         nums = list(range(1, n + 1))
         rng.shuffle(nums)
         tags.append("map_shuffled")
-    else:
+    elif style < 0.82:
         nums = rng.sample(range(1, 3 * n + 5), n)
         tags.append("map_sparse")
+    else:
+        nums = big_map_numbers(rng, n)
+        tags.append("map_big(up to 10^6)")
     aam_g = {a: nums[a] for a in atoms}
     aam_h = dict(aam_g)
     sym_g = {a: syms[a] for a in atoms}
@@ -232,14 +255,18 @@ def gen_reaction(rng, big=False, full=False, ood=None):
 # ---------------------------------------------------------------------------
 # chemically valid mapped reactions (for the legs that go through RDKit)
 # ---------------------------------------------------------------------------
-VALENCE = {"C": 4, "N": 3, "O": 2, "S": 2, "Cl": 1, "F": 1, "Br": 1, "P": 3}
+VALENCE = {"C": 4, "N": 3, "O": 2, "S": 2, "Cl": 1, "F": 1, "Br": 1, "P": 3, "H": 1}
 HEAVY = ["C", "C", "C", "C", "C", "N", "O", "O", "S", "Cl", "F", "Br", "P"]
 
 
-def gen_valid_reaction(rng, nmax=10, full=True):
+def gen_valid_reaction(rng, nmax=10, full=True, with_h=False, big_maps=None):
     """fully mapped reaction over RDKit-representable atoms whose two sides respect the usual
     valences (bond orders 1, 2, 3).  -> (G, H, tags); node ids = SMILES-like 0..n-1 on each side,
-    then shuffled."""
+    then shuffled.  `with_h`: some free valences carry EXPLICIT hydrogen nodes (mapped like every other atom; the
+    library itself makes such graphs: prune_its_to_rc(insert_hydrogens=True), add_implicit_hydrogens).
+    `big_maps` (default: 15% of the calls): map numbers up to 10^6."""
+    if big_maps is None:
+        big_maps = rng.random() < 0.15
     n = rng.randint(1, nmax)
     syms = [rng.choice(HEAVY) for _ in range(n)]
     free = [VALENCE[s] for s in syms]
@@ -291,10 +318,26 @@ def gen_valid_reaction(rng, nmax=10, full=True):
                 eh[k] = o
                 fh[a] -= d
                 fh[b] -= d
+    tags = ["valid_chem"]
+    if with_h:
+        nh = 0
+        for a in range(n):
+            k = min(free[a], fh[a])
+            while k > 0 and nh < 6 and rng.random() < 0.35:
+                syms.append("H")
+                eg[frozenset((a, len(syms) - 1))] = 1
+                eh[frozenset((a, len(syms) - 1))] = 1
+                k -= 1
+                nh += 1
+        n = len(syms)
+        if nh:
+            tags.append("explicit_H_nodes")
     nums = list(range(1, n + 1))
     c = rng.random()
-    tags = ["valid_chem"]
-    if c < 0.5:
+    if big_maps:
+        nums = big_map_numbers(rng, n)
+        tags.append("map_big(up to 10^6)")
+    elif c < 0.5:
         rng.shuffle(nums)
         tags.append("map_shuffled")
     elif c < 0.7:
@@ -315,10 +358,79 @@ def gen_valid_reaction(rng, nmax=10, full=True):
     return G, H, tags
 
 
+_RD_BT = None
+
+
+def _rd_tables():
+    global _RD_BT
+    import rdkit.Chem as Chem
+    if _RD_BT is None:
+        _RD_BT = {1: Chem.BondType.SINGLE, 2: Chem.BondType.DOUBLE, 3: Chem.BondType.TRIPLE,
+                  4: Chem.BondType.QUADRUPLE, 1.5: Chem.BondType.AROMATIC}
+    return _RD_BT, {v: k for k, v in _RD_BT.items()}
+
+
+def rdkit_alone_mol(g):
+    """an RDKit molecule for a molecular graph, built by the harness with RDKit ALONE (not fgutils.rdkit.graph_to_mol)"""
+    import rdkit.Chem as Chem
+    bt, _ = _rd_tables()
+    rw = Chem.RWMol()
+    idx = {}
+    for n, d in g.nodes(data=True):
+        sym = d["symbol"]
+        at = Chem.Atom(sym[0].upper() + sym[1:] if sym.islower() else sym)
+        if d.get("aam") is not None:
+            at.SetAtomMapNum(int(d["aam"]))
+        idx[n] = rw.AddAtom(at)
+    for u, v, d in g.edges(data=True):
+        rw.AddBond(idx[u], idx[v], bt[d["bond"]])
+    return rw.GetMol()
+
+
+def rdkit_alone_graph(smiles, keep_hs=False, sanitize=True):
+    """the molecule RDKit builds from one side of a reaction SMILES, read with RDKit ALONE (no code of the library):
+    node = atom index, symbol, map number when > 0; bond orders 1/2/3/4/1.5.  None when RDKit refuses the string.
+    keep_hs=False, sanitize=True are RDKit's default reader settings."""
+    import rdkit.Chem as Chem
+    _, inv = _rd_tables()
+    ps = Chem.SmilesParserParams()
+    ps.removeHs = not keep_hs
+    ps.sanitize = sanitize
+    mol = Chem.MolFromSmiles(smiles, ps)
+    if mol is None:
+        return None
+    g = nx.Graph()
+    for a in mol.GetAtoms():
+        if a.GetAtomMapNum() > 0:
+            g.add_node(a.GetIdx(), symbol=a.GetSymbol(), aam=a.GetAtomMapNum())
+        else:
+            g.add_node(a.GetIdx(), symbol=a.GetSymbol())
+    for b in mol.GetBonds():
+        g.add_edge(b.GetBeginAtomIdx(), b.GetEndAtomIdx(), bond=inv.get(b.GetBondType(), 1))
+    return g
+
+
+def rdkit_alone_reaction(smiles, keep_hs=False, sanitize=True):
+    parts = smiles.split(">>")
+    if len(parts) != 2:
+        return None
+    g, h = (rdkit_alone_graph(p, keep_hs, sanitize) for p in parts)
+    return None if g is None or h is None else (g, h)
+
+
+def has_explicit_h_atom(smiles):
+    """does the string write a hydrogen ATOM (`[H]`, `[H:5]`, `[2H]`)?  (RDKit's default reader drops those; whether the
+    library's reader keeps them is C10's subject)"""
+    import re
+    return re.search(r"\[\d*H[+-]?\d*(:\d+)?\]", smiles) is not None
+
+
 def reaction_smiles(G, H, rng):
-    from fgutils.rdkit import graph_to_smiles
+    """the reaction written by RDKit ALONE (input production must not depend on the bridge under test)"""
+    import rdkit.Chem as Chem
     canonical = rng.random() < 0.5
-    return "{}>>{}".format(graph_to_smiles(G, canonical=canonical), graph_to_smiles(H, canonical=canonical))
+    return "{}>>{}".format(Chem.MolToSmiles(rdkit_alone_mol(G), canonical=canonical),
+                           Chem.MolToSmiles(rdkit_alone_mol(H), canonical=canonical))
 
 
 # ---------------------------------------------------------------------------
@@ -349,9 +461,13 @@ def graph_from_desc(d):
 
 
 def smiles_case(smiles, tags, meta=None):
-    from fgutils.rdkit import smiles_to_graph
-    gh = call_impl(smiles_to_graph, smiles)
-    if isinstance(gh, ImplError):
+    """ITS.from_smiles judged against the two molecules RDKit builds from the string, read with RDKit ALONE.  Strings that
+    write hydrogen ATOMS are not produced here (RDKit's default reader drops them, a reader that keeps them is equally
+    legitimate: which one the library uses is C10's round-trip clause, F17)"""
+    if has_explicit_h_atom(smiles):
+        return None
+    gh = rdkit_alone_reaction(smiles)
+    if gh is None:
         return None
     g, h = gh
     out = call_impl(impl_from_smiles, smiles)
@@ -543,7 +659,12 @@ def run(tier, seed):
         "a networkx Graph enters get_its only through G.nodes(data=True) (order, symbol, aam), G.edges(data=True) (order, orientation, bond), has_edge and G[u][v]; these are modelled as lists",
         "dict / defaultdict(lambda: None) semantics modelled as association lists (latest assignment wins)",
         "map number 0 (RDKit: unmapped), negative or duplicated map numbers and bond order 0 are outside the statement (counted, never decide the verdict)",
-        "through ITS.from_smiles the graphs get_its receives are those of fgutils.rdkit.smiles_to_graph (RDKit parsing itself is not modelled)",
+        "through ITS.from_smiles the reference graphs are the two molecules RDKit builds from the sides of the string, read with RDKit ALONE "
+        "(harness/c09.py rdkit_alone_graph: no library code; RDKit parsing itself is not modelled); the strings are written by RDKit alone too; "
+        "strings that write hydrogen ATOMS are left to C10 (reader settings)",
+        "the second loop of _add_its_nodes never adds a node: proved for the model on the whole domain (C09.nodeStepH_eq, used by getIts_closed); "
+        "outside the domain (non-injective maps, generated as ood_dup) the same argument applies (a number that reaches its condition is carried by "
+        "a reactant node, whose own turn in the first loop added it) and model == implementation is still compared",
     ]
     if mismatches:
         print("ERROR property=C09 harness oracle and Lean domOk disagree on %d case(s)" % mismatches)
@@ -552,7 +673,7 @@ def run(tier, seed):
     return r.finish(
         level="proof",
         rule="random reactant graphs (0-11 atoms, every 25th up to 40) + random bond changes; shuffled/sparse/ascending maps, partial maps, "
-             "one-sided mapped and unmapped atoms, independent node ids / insertion orders / edge orientations per side; 12% valence-correct mapped "
+             "map numbers up to 10^6 (18% of the graph cases, 15% of the SMILES cases: around 999/1000/2^15/2^16/10^5/10^6 and arbitrary), one-sided mapped and unmapped atoms, independent node ids / insertion orders / edge orientations per side; 12% valence-correct mapped "
              "reaction SMILES through ITS.from_smiles; 12% out-of-domain (map number 0, negative, duplicate, bond order 0); "
              "15% of the in-domain graph cases (and every corpus reaction) hand G and H over in another FORM (numpy.int64 map numbers and ids / "
              "extra attributes / nx.freeze / sub-graph view of a larger graph; tags G_variant=*, H_variant=*), judged against the plain form. "
